@@ -18,6 +18,11 @@ STALE = ['result_buffer_stale/0_2_assignment.json',
          'query_marker_stale.h5']
 
 
+def _dp_setup(case, mode):
+    from harness import dispatch as DP
+    DP.setup(case, mode)
+
+
 def classify(f, case):
     if 'result_buffer_' in f['label'] and 'scratch' in f['label']:
         return 'F9:result_buffer-left-in-scratch-after-failed-mapping'
@@ -46,9 +51,35 @@ def h_scratch(ctx, case):
                 planted.append(rel)
                 planted.append(os.path.dirname(rel))
     planted = [x for x in planted if x]
-    fail = ctx.choice('failure', 3)     # 0 none, 1 worker, 2 environment
+    # scratch of "another run" under every name a run could choose
+    # without a random suffix (timestamps of the next few seconds)
+    import datetime
+    sentinels = []
+    now = datetime.datetime.now()
+    for dt in range(0, 4):
+        t = now + datetime.timedelta(seconds=dt)
+        ts = t.strftime('%Y%m%d%H%M%S')
+        for name in (f'cell_type_mapper_{ts}', f'cell_type_mapper_{ts}_',
+                     'result_buffer_', 'results_buffer',
+                     'result_buffer', 'file_tracker_'):
+            for root in (work['scratch'], work['out']):
+                d = os.path.join(root, name)
+                os.makedirs(d, exist_ok=True)
+                p = os.path.join(d, 'other_run.txt')
+                with open(p, 'w') as f:
+                    f.write('belongs to another run')
+                sentinels.append((p, 'belongs to another run'))
+                planted += [name, os.path.join(name, 'other_run.txt')]
+    fail = ctx.choice('failure', 4)     # 0 none, 1 worker, 2 env, 3 query
     cfg = ST.make_config(inp, work, **kw)
     undo = None
+    if fail == 3:
+        # the query file cannot be read: the run fails and so does the
+        # part of the clean-up block that reads it again
+        bad = os.path.join(work['base'], 'truncated_query.h5ad')
+        with open(bad, 'wb') as f:
+            f.write(open(cfg['query_path'], 'rb').read()[:300])
+        cfg['query_path'] = bad
     if fail == 2:
         which = ctx.choice('env_point', len(SC.ENV_POINTS))
         when = ['before', 'after'][ctx.choice('env_when', 2)]
@@ -56,6 +87,10 @@ def h_scratch(ctx, case):
     try:
         res = ST.run(cfg, faults=(fail == 1),
                      fault_modes=['before', 'after', 'raise_at'])
+    except Exception as e:
+        # raised from run_mapping's own clean-up block
+        res = {'raised': e, 'json': None, 'csv': None, 'log': None,
+               'h5': None, 'outcome': {}}
     finally:
         if undo:
             undo()
@@ -65,7 +100,8 @@ def h_scratch(ctx, case):
     if fail == 0 or (fail == 1 and not abnormal):
         ctx.check(not failed, 'no failure injected => the run succeeds: '
                   + str(res['raised'])[:80])
-    SC.check_clean(ctx, inp, cfg, work, before, res, planted=planted)
+    SC.check_clean(ctx, inp, cfg, work, before, res, planted=planted,
+                   sentinels=sentinels)
     if not failed and base['json'] is not None:
         ctx.check(res['json'] is not None and res['json'].get('results')
                   == base['json'].get('results'),
@@ -73,6 +109,49 @@ def h_scratch(ctx, case):
                   'runs')
     ST.drop_work(work)
     return 'failed' if failed else 'ok'
+
+
+def h_stale_buffers(ctx, case):
+    """the mapping dispatch with per-chunk result files: files left in
+    the result directory by other runs (under any buffer-like name) are
+    neither read nor removed"""
+    from harness import dispatch as DP
+    import cell_type_mapper.type_assignment.election as el
+    real_mkdtemp = el.tempfile.mkdtemp
+    planted = []
+
+    class _TF:
+        def __getattr__(self, n):
+            return getattr(__import__('tempfile'), n)
+
+        def mkdtemp(self, *a, **k):
+            # plant the stale files just before the run creates its own
+            # buffer directory
+            d = k.get('dir')
+            if d is not None and not planted:
+                for name in ('results_buffer', 'results_buffer_',
+                             'results_buffer_old', 'result_buffer'):
+                    sub = os.path.join(str(d), name)
+                    os.makedirs(sub, exist_ok=True)
+                    for fn in ('0_1_assignment.json', '0_2_assignment.json',
+                               '9_9_assignment.json'):
+                        p = os.path.join(sub, fn)
+                        with open(p, 'w') as f:
+                            f.write('[{"cell_id": "stale"}]')
+                        planted.append(p)
+            return real_mkdtemp(*a, **k)
+    from harness.common import patch
+    patch(el, 'tempfile', _TF())
+    res = DP.run_dispatch(ctx, case, faults=False)
+    if res['raised'] is not None:
+        ctx.exception(res['raised'], 'stale per-chunk files disturbed the '
+                      'run: ' + str(res['raised'])[:80])
+        return 'EXC'
+    ctx.reach('mapped')
+    DP.check_dispatch(ctx, res, case)
+    ctx.check(planted != [] and all(os.path.exists(p) for p in planted),
+              'files of other runs are left alone')
+    return 'ok'
 
 
 HARNESSES = [
@@ -96,4 +175,15 @@ HARNESSES = [
                     'mkdtemp uniqueness); the other stages',
             classify=classify,
             expect_reach=['failed run', 'successful run'], split=16),
+    Harness('dispatch_ignores_stale_buffers', h_stale_buffers,
+            setup=_dp_setup,
+            cases=[{'rows': 2, 'K': 0, 'buffer': True, 'max_proc': 2},
+                   {'rows': 3, 'K': 0, 'buffer': True, 'max_proc': 1}],
+            funcs=['election.run_type_assignment_on_h5ad_cpu',
+                   '_run_type_assignment_on_h5ad_worker'],
+            stubs=['see dispatch_order_identity of C01'],
+            bounds='2-3 rows, per-chunk result files; stale files planted '
+                   'under buffer-like directory names in the result '
+                   'directory',
+            expect_reach=['mapped']),
 ]
